@@ -25,11 +25,12 @@ import (
 
 // Project is a set of files on the simulated disk and a root file.
 type Project struct {
-	Files map[string]string `json:"files"` // absolute path -> base64 content
-	Dirs  []string          `json:"dirs,omitempty"`
-	Root  string            `json:"root"`          // path handed to the library (absolute, or relative to Cwd)
-	Cwd   string            `json:"cwd,omitempty"` // simulated working directory
-	Name  string            `json:"name,omitempty"`
+	Files   map[string]string `json:"files"` // absolute path -> base64 content
+	Dirs    []string          `json:"dirs,omitempty"`
+	Special []string          `json:"special,omitempty"` // files that report size 0 to stat although they have content (FIFO, /proc-like)
+	Root    string            `json:"root"`              // path handed to the library (absolute, or relative to Cwd)
+	Cwd     string            `json:"cwd,omitempty"`     // simulated working directory
+	Name    string            `json:"name,omitempty"`
 }
 
 func (p *Project) content(path string) []byte {
@@ -51,6 +52,7 @@ func (p *Project) clone() Project {
 		q.Files[k] = v
 	}
 	q.Dirs = append([]string(nil), p.Dirs...)
+	q.Special = append([]string(nil), p.Special...)
 	return q
 }
 
@@ -204,6 +206,11 @@ type Env struct {
 	// CwdShadow: the process runs in another working directory, in which every relative name exists
 	// as a regular file (only for projects whose root path is absolute).
 	CwdShadow bool `json:"cwd_shadow,omitempty"`
+	// ReuseInput: the project is processed twice from the very same in-memory bytes (entry "file");
+	// the second result counts.
+	ReuseInput bool `json:"reuse_input,omitempty"`
+	// GCEvery: collect garbage every this many steps (0: never forced).
+	GCEvery int `json:"gc_every,omitempty"`
 	Slack     int  `json:"slack,omitempty"` // spare capacity of the root content handed to kit.NewJApiFromFile (files read through the disk get os.ReadFile's capacity)
 }
 
@@ -373,6 +380,12 @@ func mountProject(p *Project, env Env, plan []simrt.PlannedFault) *simrt.Disk {
 	for _, dir := range p.Dirs {
 		d.AddDir(dir)
 	}
+	for _, sp := range p.Special {
+		if d.Special == nil {
+			d.Special = map[string]int64{}
+		}
+		d.Special[filepath.Clean(sp)] = 0
+	}
 	d.AddDir(cwd)
 	d.Plan = plan
 	d.MaxCalls = 10000
@@ -482,6 +495,10 @@ func runLibrary(root string, rootContent []byte, o Opts) (res Result) {
 	return runLibraryWith(root, rootContent, oo, o.Entry)
 }
 
+// sharedRootBuffer, if set, makes successive executions use one and the same root buffer: the
+// first one fills it, the later ones hand it to the library as it then is.
+var sharedRootBuffer *[]byte
+
 // lastPasteDepth: number of nested PASTE expansions on the stack when the step budget ran out.
 var lastPasteDepth int
 
@@ -508,6 +525,7 @@ func executeWith(p *Project, oo []core.Option, entry string, env Env, seed uint6
 	simrt.SetPoolPolicy(env.PoolPolicy, env.PoolDrop)
 	simrt.SetClock(1_700_000_000+env.ClockStart, env.RandSeed)
 	curReadOrder = env.ReadOrder
+	simrt.SetGCEvery(uint64(env.GCEvery))
 	d := mountProject(p, env, nil)
 	simrt.FS = d
 	total := uint64(p.totalBytes() + 200)
@@ -648,6 +666,7 @@ func execute(p *Project, o Opts, env Env, plan []simrt.PlannedFault, seed uint64
 	simrt.SetPoolPolicy(env.PoolPolicy, env.PoolDrop)
 	simrt.SetClock(1_700_000_000+env.ClockStart, env.RandSeed)
 	curReadOrder = env.ReadOrder
+	simrt.SetGCEvery(uint64(env.GCEvery))
 	d := mountProject(p, env, plan)
 	simrt.FS = d
 	total := uint64(p.totalBytes() + 200)
@@ -663,6 +682,14 @@ func execute(p *Project, o Opts, env Env, plan []simrt.PlannedFault, seed uint64
 	}
 	rootContent := make([]byte, len(rc), len(rc)+env.Slack)
 	copy(rootContent, rc)
+	if sharedRootBuffer != nil {
+		// the caller hands the very same bytes to the library again (NewJApiFromFile on one buffer)
+		if len(*sharedRootBuffer) == 0 {
+			*sharedRootBuffer = rootContent
+		} else {
+			rootContent = *sharedRootBuffer
+		}
+	}
 	lastRootContent = append(lastRootContent[:0], rc...)
 	var res Result
 	if treeSpawnsGoroutines() {
